@@ -11,7 +11,7 @@ ID = "C17"
 N_QUICK, N_THOROUGH = 1500, 80000
 RULE = ("SSC sources: simfile properties incl. each SSC-only property absent / empty / default / default with surrounding blanks / non-default; charts whose "
         "keys are the six SM fields plus documented SSC chart properties in the same value states; WARPS absent/empty/non-empty; x sampled behaviour "
-        "mappings (total and partial; all 4^5 total mappings in thorough) x with/without templates; corpus SSC files; sm_to_ssc outputs for the round "
+        "mappings (total and partial; all 4^5 total mappings in thorough) x with/without templates (templates that themselves hold SSC-only keys included); corpus SSC files; sm_to_ssc outputs for the round "
         "trip; compares result or exception (class + offending key); non-trivial = at least one SSC-only property present")
 assumptions = ["key-only (None) SSC-only properties are outside C17's enumerated value states (observation K5): the model answers Unmodelled, generator avoids them"]
 extra_trusted = []
